@@ -24,12 +24,11 @@ Proof. vm_compute. reflexivity. Qed.
 Lemma table_count_ok : N.of_nat (length all_tables) = table_count.
 Proof. vm_compute. reflexivity. Qed.
 
-(* Latin1.Encode on the single byte 0xC3 (first byte of a two-byte UTF-8 sequence): str[:2] with len = cap = 1;
-   and on the valid three-byte UTF-8 string E6 97 A5 (U+65E5, not in latin1): after lengths 1,2,3 fail the scan
-   goes on to str[:4] because len(inputEntries) = 4 *)
-Lemma encode_panics_witness :
-  In Latin1 all_tables /\ encode Latin1 [195] [] = Panic /\ encode Latin1 [230; 151; 165] [] = Panic /\
-  encode Latin1 [97; 230; 151; 165] [] = Panic.
+(* the inputs on which Encode used to slice past the end (before 014a463e8) are now reported: the single byte 0xC3,
+   the valid three-byte UTF-8 string E6 97 A5 (U+65E5, not in latin1) alone or after 'a', also with hidden capacity *)
+Lemma encode_reports_short_tail :
+  In Latin1 all_tables /\ encode Latin1 [195] [] = Fail /\ encode Latin1 [230; 151; 165] [] = Fail /\
+  encode Latin1 [97; 230; 151; 165] [] = Fail /\ encode Latin1 [195] [169] = Fail.
 Proof. split; [vm_compute; tauto|repeat split; vm_compute; reflexivity]. Qed.
 
 (* Utf16.Encode accepts ED A0 80 (a UTF-8-encoded surrogate, not a character) and emits the lone surrogate D8 00,
